@@ -184,6 +184,43 @@ def _jsonable(x):
     return x if isinstance(x, (int, str, bool, float, type(None))) else repr(x)
 
 
+def cat_observation(pf, whole, names):
+    """for every categorical column: per row group (dictionary or None, codes) as read from that row group ALONE,
+    and labels+codes of the whole-dataset read -> input/output of the model Dataset/CatRead.v"""
+    import pandas as pd
+    out = {}
+    if len(pf.row_groups) > 12:
+        return out
+    for name in names:
+        chunks = []
+        for i, rg in enumerate(pf.row_groups):
+            col = [c for c in rg.columns if ".".join(c.meta_data.path_in_schema) == name]
+            has_dict = bool(col) and col[0].meta_data.dictionary_page_offset is not None
+            one = pf[i].to_pandas(columns=[name])[name]
+            if not isinstance(one.dtype, pd.CategoricalDtype):
+                chunks = None
+                break
+            chunks.append([[_jsonable(x) for x in one.cat.categories] if has_dict else None, [int(c) for c in one.cat.codes]])
+        w = whole[name]
+        if chunks is None or not isinstance(w.dtype, pd.CategoricalDtype):
+            continue
+        out[name] = {"chunks": chunks, "labels": [_jsonable(x) for x in w.cat.categories], "codes": [int(c) for c in w.cat.codes]}
+    return out
+
+
+def cat_model_io(obs):
+    """-> (pqref arguments, real cells in the model's output form) with labels numbered"""
+    ids = {}
+
+    def lid(x):
+        k = json.dumps(x, sort_keys=True)
+        return ids.setdefault(k, len(ids))
+    chunks = [[[] if d is None else [[lid(x) for x in d]], codes] for d, codes in obs["chunks"]]
+    labs = [lid(x) for x in obs["labels"]]
+    real = [[] if c < 0 else ([labs[c]] if c < len(labs) else [b"bad", c]) for c in obs["codes"]]
+    return chunks, real
+
+
 def old_chunk_ranges(pf):
     out = []
     for rg in pf.row_groups:
@@ -293,12 +330,14 @@ def run_history(arg):
             # fresh read in a killable child
             def reader():
                 pf = ParquetFile(target)
-                return frame_cells(pf.to_pandas(), bool(h["index"])), dsfs.refs_of(pf) if not simple else [], len(pf.row_groups)
+                whole = pf.to_pandas()
+                return (frame_cells(whole, bool(h["index"])), dsfs.refs_of(pf) if not simple else [], len(pf.row_groups),
+                        cat_observation(pf, whole, [c["name"] for c in h["cols"] if c["kind"] in CAT_KINDS]))
             s, val = dsfs.guarded(reader, READ_TIMEOUT)
             if s != "ok":
                 st["problems"].append(("unreadable", "fresh open/read after step %d: %s %s" % (i, s, val)))
             else:
-                got, refs_a, nrg = val
+                got, refs_a, nrg, st["cat"] = val
                 st["nrg"] = nrg
                 if not simple and i > 0:
                     if refs_a[:len(refs_b)] != refs_b:
@@ -400,6 +439,12 @@ def run(ctx):
             for sym, text in st["problems"]:
                 ctx.fail(classify(h, st, sym), {"history": h, "failing_step": i, "observed": text,
                                                 "trace": dsfs.trace_json(st.get("trace", []), 120)}, text)
+            for name, obs in (st.get("cat") or {}).items():
+                if any(d is not None for d, _ in obs["chunks"]):
+                    chunks, real = cat_model_io(obs)
+                    cmds.append(("read_cat", [], chunks))
+                    meta.append(("cat", dict(short, column=name, row_groups=len(chunks),
+                                             dictionaries_differ=len(set(json.dumps(d) for d, _ in obs["chunks"] if d is not None)) > 1), real))
             if i == 0 or "raised" in st:
                 continue
             if h["scheme"] == "simple":
@@ -425,6 +470,11 @@ def run(ctx):
     if len(outs) != len(cmds):
         raise RuntimeError("pqref answered %d of %d commands" % (len(outs), len(cmds)))
     for (kind, short, st), o in zip(meta, outs):
+        if kind == "cat":
+            ctx.count("categorical_reads", "dictionaries differ" if short["dictionaries_differ"] else "one dictionary")
+            ctx.correspondence("CatRead.read_cat(per-row-group dictionaries and codes) = categorical column of the whole read", short,
+                               [list(x) for x in o] if isinstance(o, list) else o, st)
+            continue
         if kind == "safe":
             ok = ctx.correspondence("check_safe_trace(recorded trace of the real append) = true", short, 1, o)
             if not ok and ctx.broken and "trace" not in ctx.broken[-1]:
